@@ -65,7 +65,12 @@ Proof.
   assert (Hlen : (Z.to_nat start + length new <= length dest)%nat) by (unfold zlen in *; lia).
   split; [unfold zlen; rewrite splice_length; [reflexivity|lia|exact Hlen]|].
   split; [lia|]. split; [lia|]. split; [lia|].
-  intros i Hi. unfold zn at 3 5. rewrite nth_splice by (lia || exact Hlen). rewrite Hnl, Hdl.
+  intros i Hi.
+  assert (Hsp : zn (splice dest start new) i =
+                if (Nat.leb (Z.to_nat start) (Z.to_nat i) && Nat.ltb (Z.to_nat i) (Z.to_nat start + Z.to_nat (x2 - x1)))%bool
+                then nth (Z.to_nat i - Z.to_nat start) new 0 else zn dest i).
+  { unfold zn. rewrite nth_splice by (lia || exact Hlen). rewrite Hnl, Hdl. reflexivity. }
+  rewrite Hsp. clear Hsp.
   destruct ((start <=? i) && (i <? start + (x2 - x1))) eqn:Ein.
   - replace (Nat.leb (Z.to_nat start) (Z.to_nat i)) with true by (symmetry; apply Nat.leb_le; lia).
     replace (Nat.ltb (Z.to_nat i) (Z.to_nat start + Z.to_nat (x2 - x1))) with true by (symmetry; apply Nat.ltb_lt; lia).
@@ -80,7 +85,7 @@ Proof.
     + (* BMask *) destruct (zlen mask <? x2 - x1); inversion Em; subst mrow. inversion Ec; subst crow.
       cbn [blit_px]. unfold zn. replace (Z.to_nat (i - start)) with (Z.to_nat i - Z.to_nat start)%nat by lia. reflexivity.
     + (* BClipMask *) destruct (zlen mask <? x2 - x1); inversion Em; subst mrow.
-      apply slice_ok in Ec. destruct Ec as (_ & _ & _ & Hcn).
+      apply slice_ok in Ec. destruct Ec as (Hc0 & _ & _ & Hcn).
       replace (y * surf_w + x1 + (x2 - x1) - (y * surf_w + x1)) with (x2 - x1) in Hcn by lia.
       rewrite Hcn by lia. unfold zn.
       replace (Z.to_nat (i - start)) with (Z.to_nat i - Z.to_nat start)%nat by lia.
@@ -89,7 +94,7 @@ Proof.
     + (* BBlendMask *) destruct (zlen mask <? x2 - x1); inversion Em; subst mrow. inversion Ec; subst crow.
       cbn [blit_px]. unfold zn. replace (Z.to_nat (i - start)) with (Z.to_nat i - Z.to_nat start)%nat by lia. reflexivity.
     + (* BClipBlendMask *) destruct (zlen mask <? x2 - x1); inversion Em; subst mrow.
-      apply slice_ok in Ec. destruct Ec as (_ & _ & _ & Hcn).
+      apply slice_ok in Ec. destruct Ec as (Hc0 & _ & _ & Hcn).
       replace (y * surf_w + x1 + (x2 - x1) - (y * surf_w + x1)) with (x2 - x1) in Hcn by lia.
       rewrite Hcn by lia. unfold zn.
       replace (Z.to_nat (i - start)) with (Z.to_nat i - Z.to_nat start)%nat by lia.
